@@ -178,7 +178,9 @@ C20(c, o) ==
           "generation exceeded the work budget (super-polynomial walk); IR size " \o Str(IrSize(o)))
       \cup Chk(WorkOf(o) <= IrSize(o) * IrSize(o),
                "work " \o Str(WorkOf(o)) \o " exceeds the quadratic bound for IR size " \o Str(IrSize(o)))
-      \cup Chk(o.micros < 20000000, "generation took " \o Str(o.micros) \o " us") ]
+      \cup Chk(o.micros < 20000000, "generation took " \o Str(o.micros) \o " us")
+      (* CPU time of the calling thread (insensitive to machine load): "well under a second" with a 2x margin *)
+      \cup Chk(~Has(o, "cpu_micros") \/ o.cpu_micros < 2000000, "generation used " \o Str(o.cpu_micros) \o " us of CPU for an IR of size " \o Str(IrSize(o))) ]
 
 (* ------------------------------------------------------------------ C13 (static part) *)
 C13(c, o) ==
